@@ -142,6 +142,27 @@ def index_guarded(p: POp) -> Optional[str]:
     for seq in {p.base, p.path} - {None}:
         if min_len(p.pc, seq) >= need:
             return f"length >= {need} established on the path"
+        # a list that something was just appended to holds at least that many elements
+        n, cur = 0, seq
+        while cur.op == "mut" and cur.a[1] in ("append", "insert") and len(cur.a) == 3:
+            n += 1
+            cur = cur.a[0]
+        if cur.op == "list":
+            n += len([x for x in cur.a[0] if x.op != "star"])
+        if n >= need:
+            return f"{n} element(s) were appended to the list before"
+        # list(group) for a (key, group) pair handed out by itertools.groupby: a group holds at least one element
+        g_ = seq
+        while True:
+            if g_.op == "call" and g_.a[0].op == "builtin" and g_.a[0].a[0] in ("list", "tuple") and len(g_.a[1]) == 1:
+                g_ = g_.a[1][0]
+            elif g_.op == "comp" and g_.a[0] in ("list", "gen") and len(g_.a[2]) == 1 and not g_.a[2][0][2]:
+                g_ = g_.a[2][0][1]          # one item per item of the source
+            else:
+                break
+        if need == 1 and g_ is not seq and g_.op == "sub" and g_.a[1] == const(1) and g_.a[0].op == "elem" \
+                and g_.a[0].a[0].op == "call" and g_.a[0].a[0].a[0] == T("global", ("itertools.groupby",)):
+            return "a group of itertools.groupby is never empty"
     return None
 
 
